@@ -203,6 +203,21 @@ Definition pkt_of_wire (w : wire) : pkt :=
 Definition handle_wire (c : cfg) (now : N) (st : ust) (w : wire) : ust * outcome :=
   if negb (w_fvec w =? VECTOR_E131_DATA) then (st, OIgnore) else handle c now st (pkt_of_wire w).
 
+(* a whole datagram as seen by IncomingUDPTransport::Receive and RootInflator: dropped unless it starts
+   with the ACN preamble; the root vector selects the ratified (VECTOR_ROOT_E131) or the revision-2
+   (VECTOR_ROOT_E131_REV2) framing decoder, every other root vector is dropped; the CID is the root
+   layer header.  Both decoders feed the same DMPE131Inflator. *)
+Record dgram := mkDG { d_pre_ok : bool; d_rvec : N; d_wire : wire }.
+
+Definition with_rev2 (b : bool) (w : wire) : wire :=
+  mkW (w_cid w) b (w_fvec w) (w_prio w) (w_seq w) (w_opts w) (w_univ w) (w_dvec w) (w_dmph w) (w_pdu w).
+
+Definition handle_dgram (c : cfg) (now : N) (st : ust) (d : dgram) : ust * outcome :=
+  if negb (d_pre_ok d) then (st, OIgnore)
+  else if d_rvec d =? VECTOR_ROOT_E131 then handle_wire c now st (with_rev2 false (d_wire d))
+  else if d_rvec d =? VECTOR_ROOT_E131_REV2 then handle_wire c now st (with_rev2 true (d_wire d))
+  else (st, OIgnore).
+
 (* ------------------------------------------------------------------ Art-Net *)
 Record asrc := mkA { a_addr : N; a_ts : N; a_buf : list N }.   (* address 0 = wildcard = empty slot *)
 Record aport := mkP { ap_srcs : list asrc; ap_merging : bool; ap_buf : list N }.
